@@ -51,6 +51,11 @@ PHYSICAL_CONSTANTS = {
 }
 
 
+# scipy.constants.<name> (plain floats in SI units) -> key of PHYSICAL_CONSTANTS
+SCIPY_DIRECT = {"Avogadro": "Avogadro constant", "N_A": "Avogadro constant", "Boltzmann": "Boltzmann constant", "k": "Boltzmann constant",
+                "Planck": "Planck constant", "h": "Planck constant", "c": "speed of light in vacuum", "speed_of_light": "speed of light in vacuum"}
+
+
 def unit_from_name(name: str):
     if name not in UNIT_TABLE:
         raise AnalysisError(f"unit name not in T-UNITS: {name}")
